@@ -143,7 +143,58 @@ def run(tier, seed, escalate=False):
     f2, n2 = sort_with_repeated_coordinates(seed)
     res["impl_failures"] += [f for f in f2 if f["key"] not in {g["key"] for g in res["impl_failures"]}]
     res["evaluations"] += n2
+    f3, n3 = relabelling_with_shared_axis_arrays(seed)
+    res["impl_failures"] += [f for f in f3 if f["key"] not in {g["key"] for g in res["impl_failures"]}]
+    res["evaluations"] += n3
     return res
+
+
+def relabelling_with_shared_axis_arrays(seed):
+    """ONE coordinate array handed over for two dimensions of an object (a square grid built from a single vector), or assigned
+    to two objects: an in-place relabelling of one dimension (sort, rename, reorder, squeeze of another dim, a written
+    coordinate through `update`-style assignment) leaves every other (dimension, coordinate) -> value attachment as it was"""
+    import numpy as np, warnings
+    from common import dnp
+    from oracles import label_dict, dict_close
+    fails, n_eval = [], 0
+    axis = np.array([3.0, 1.0, 4.0, 2.0])
+
+    def labels(o):
+        return label_dict(o)
+
+    acts = {"sort-x": lambda o: o.sort("x"), "sort-y": lambda o: o.sort("y"), "reorder": lambda o: o.reorder(["y"]),
+            "rename": lambda o: o.rename("x", "t2"), "sort-then-reorder": lambda o: (o.sort("x"), o.reorder(["y"]))}
+    for nm, act in acts.items():
+        shared = axis.copy()
+        d = dnp.DNPData(np.arange(16.0).reshape(4, 4), ["x", "y"], [shared, shared])
+        before = labels(d)
+        with warnings.catch_warnings():
+            warnings.simplefilter("ignore")
+            try:
+                act(d)
+            except Exception:  # noqa: BLE001
+                continue
+        n_eval += 1
+        after = labels(d)
+        if "rename" in nm and after is not None:
+            after = {frozenset((("x" if k == "t2" else k), v) for k, v in key): val for key, val in after.items()}
+        if before is None or after is None or not dict_close(before, after):
+            key = "C02:value-moved-to-other-labels:%s:one-array-for-two-dimensions" % nm
+            fails.append({"key": key, "clause": key, "ops": [{"action": nm, "axis": axis.tolist()}]})
+    # the same array object as the axis of TWO objects
+    shared = axis.copy()
+    a = dnp.DNPData(np.arange(8.0).reshape(4, 2), ["x", "k"], [axis.copy(), np.arange(2.0)])
+    b = dnp.DNPData(-np.arange(12.0).reshape(4, 3), ["x", "m"], [axis.copy(), np.arange(3.0)])
+    a.coords["x"] = shared; b.coords["x"] = shared
+    lb = labels(b)
+    with warnings.catch_warnings():
+        warnings.simplefilter("ignore")
+        a.sort("x")
+    n_eval += 1
+    if not dict_close(lb, labels(b)):
+        key = "C02:value-moved-to-other-labels:sort:one-array-for-two-objects"
+        fails.append({"key": key, "clause": key, "ops": [{"action": "sort", "axis": axis.tolist()}]})
+    return fails, n_eval
 
 
 def sort_with_repeated_coordinates(seed):
